@@ -376,6 +376,41 @@ def well_posed_free(net):
     return d > 0 and d == datum_defect(net) and sg != "none" and sg >= 0.05
 
 
+def icgs_unpivoted_defect(text):
+    """Exact model of the recorded gso finding: ICGS orthogonalises the columns in their given order without pivoting and
+    calls a column dependent when its residual is below the absolute 2.2e-11.  After a small but legitimate residual (1e-4:
+    two nearly parallel columns that the later ones separate) the rounding residue of a truly dependent column is amplified
+    above that tolerance and the defect comes out too small although the matrix has a clear numerical rank.
+    -> (defect the model predicts for gso, defect by numpy's singular values with a clear gap) or None"""
+    from .. import netlin
+    dump, crash = netrun.net_driver(text, "svd")
+    if crash is not None or not dump or dump.get("stage") != "adjusted":
+        return None
+    A, b, C, minx, R = netlin.reference(dump)
+    if R is None or not R.resolving:
+        return None
+    try:
+        L = np.linalg.cholesky(C)
+        Ah = np.linalg.solve(L, A)
+    except np.linalg.LinAlgError:
+        return None
+    Q = []
+    dep = 0
+    for k in range(Ah.shape[1]):
+        pk = Ah[:, k].copy()
+        for _ in range(2):
+            r = [q @ pk for q in Q]
+            for q, rj in zip(Q, r):
+                pk = pk - q * rj
+        rkk = float(np.linalg.norm(pk))
+        if rkk > 2.220446049250313e-11:
+            Q.append(pk / rkk)
+        else:
+            Q.append(pk)
+            dep += 1
+    return dep, R.d
+
+
 def oracle_free(c, stats):
     net = reduce_constraints(c)
     an = datum_analysis(net)
@@ -447,6 +482,14 @@ def oracle_free(c, stats):
             elif o[1]:
                 fails.append("free.%s.removed: well-posed free network, points %s removed" % (alg, list(o[1])))
     kinds = set(outcome.values())
+    others = set(o for a, o in outcome.items() if a != "gso")
+    if resolving and len(kinds) > 1 and len(others) == 1 and outcome.get("gso") not in others:
+        # gso alone deviates on a well-posed network: the recorded finding only if its exact model predicts a smaller defect
+        md = icgs_unpivoted_defect(nm.gkf_text(net))
+        if md is not None and md[0] < md[1]:
+            return ["free.gso.unpivoted_rank: gso finds defect %d, the matrix has defect %d with a clear gap (ICGS without pivoting, "
+                    "absolute tolerance after a small legitimate pivot); outcome %s, the other algorithms %s"
+                    % (md[0], md[1], outcome["gso"], list(others)[0])]
     if len(kinds) > 1:
         fails.append("free.%s.algorithms_differ: %s" % ("wellposed" if resolving else "illposed", {a: o for a, o in outcome.items()}))
     elif outcome and list(kinds)[0][0] == "adjusted":
